@@ -7627,7 +7627,7 @@ impl<'a> Parser<'a> {
                     Token::Number(w, false) => Ok(Ident::new(w)),
                     _ => self.expected("placeholder", next_token),
                 }?;
-                let placeholder = tok.to_string() + &ident.value;
+                let placeholder = tok.to_string() + &ident.to_string();
                 Ok(Value::Placeholder(placeholder))
             }
             unexpected => self.expected(
